@@ -13,10 +13,18 @@ var urlRE = regexp.MustCompile("(?i)\\b((?:[a-z][\\w-]+:(?:/{1,3}|[a-z0-9%])|www
 // TextToHTML takes plain text, escapes it and tries to pretty it up for
 // HTML display
 func TextToHTML(text string) string {
-	text = html.EscapeString(text)
-	text = urlRE.ReplaceAllStringFunc(text, WrapURL)
+	// URLs are located in the original text and each piece is escaped on its own: matching
+	// on already escaped text could end a URL in the middle of an entity ("&gt" + ";").
+	b := &strings.Builder{}
+	last := 0
+	for _, loc := range urlRE.FindAllStringIndex(text, -1) {
+		b.WriteString(html.EscapeString(text[last:loc[0]]))
+		b.WriteString(WrapURL(html.EscapeString(text[loc[0]:loc[1]])))
+		last = loc[1]
+	}
+	b.WriteString(html.EscapeString(text[last:]))
 	replacer := strings.NewReplacer("\r\n", "<br/>\n", "\r", "<br/>\n", "\n", "<br/>\n")
-	return replacer.Replace(text)
+	return replacer.Replace(b.String())
 }
 
 // WrapURL wraps a <a href> tag around the provided URL
